@@ -186,10 +186,25 @@ CLAIMED.update({
     ),
 })
 
+CLAIMED.update({
+    "C11": dict(
+        text=("The containment decision of `warcraft-rs mpq extract` on the real code: entry_name_is_contained - the predicate every archive entry "
+              "name has to pass before an output path is built from it - accepts a name exactly when none of its components (pieces between "
+              "'\\' and '/') is '..' or contains ':' and a component other than '.' exists; decided against a position-wise statement of that "
+              "rule for EVERY byte string of 1..=12 bytes (24 in thorough), in both directions (no hostile name accepted, no harmless name refused)."),
+        design_ref="DESIGN.md section 0.7 (C11) and section 4, C11",
+        note=("Kernel-level claim only. The defect behind it (entry names were joined onto the output directory unchecked: ..\\..\\x and absolute "
+              "names were written outside it) was demonstrated natively against the CLI binary (findings/C11) and repaired by fix commit a1cffec, "
+              "which introduced the kernel. Outside: file-system effects of the process (symlinks, case folding, Windows device names), the "
+              "PathBuf construction in extraction_relative_path (split/collect over symbolic-length pieces does not finish in CBMC; its result "
+              "has normal components only because of the decided predicate and its own filter - read, not executed), call sites that might "
+              "bypass the helper, other extraction paths (rebuild, storm-ffi)."),
+    ),
+})
+
 NOT_APPLICABLE = {
     "C07": "rebuild is an orchestration over Archive::open + ArchiveBuilder::build through NamedTempFile/persist (file I/O and FFI); Archive::open on even one symbolic field exceeds 14 GB in CBMC; no arithmetic kernel of its own to encode (DESIGN.md section 5)",
     "C09": "quantifies over thread schedules of a rayon pool; Kani/CBMC model no concurrency and rayon's runtime is FFI (DESIGN.md section 5)",
-    "C11": "the containment decision is an inline expression inside a 250-line CLI function of a binary crate that also drives rayon and fs::write; file-system effects of a process are outside symbolic reach (DESIGN.md section 5)",
     "C12": "quantifies over kill points and failing system calls of an OS process; the deciding code is tempfile + rename in the kernel/FFI (DESIGN.md section 5)",
     "C20": "property of whole process runs (argument parsing, error propagation to main, stdout); no unit a bounded model checker can drive (DESIGN.md section 5)",
 }
